@@ -336,6 +336,7 @@ def run(ctx):
     ctx.guard(r5, ctx, prog)
     ctx.guard(r6, ctx, prog)
     ctx.guard(tmon.run, ctx, prog, 'C15.R7')
+    ctx.guard(tmon.run_users, ctx, prog, 'C15.R9', DNS)
     ctx.guard(harden.run, ctx, prog, 'C15.R8', [prog.fn1(DNS + '::onUdpRecv')],
               lambda g: g.file.startswith(MODULES + '/network/') or g.file.startswith(MODULES + '/util/'), 'DNS datagram path')
     return prog
